@@ -28,6 +28,14 @@ def _issym(*args):
     return False
 
 
+def _defloat(a):
+    """object array holding only plain numbers (allocated by the shim) -> float array, for real numpy functions"""
+    if isinstance(a, _np.ndarray) and a.dtype == object and not is_sym(a):
+        try: return a.astype(float)
+        except Exception: return a
+    return a
+
+
 def _obj(a):
     if isinstance(a, STag): return a.a
     if isinstance(a, _np.ndarray): return a
@@ -134,7 +142,7 @@ class NPRandom(Forward):
     def rand(self, *shape): return self._draw('rand', ('uniform', 0, 1), shape or None, lambda s: [s >= 0, s < 1])
     def random(self, size=None): return self._draw('random', ('uniform', 0, 1), size, lambda s: [s >= 0, s < 1])
     def uniform(self, low=0.0, high=1.0, size=None):
-        if PRESET['uniform']: return self._draw('uniform', ('uniform', low, high), size)
+        if PRESET['uniform'] or _np.ndim(low) > 0 or _np.ndim(high) > 0: return self._draw('uniform', ('uniform', low, high), size)
         return self._draw('uniform', ('uniform', low, high), size, lambda s: [s >= T(low), s < T(high)])
     def randn(self, *shape): return self._draw('randn', ('normal', 0, 1), shape or None)
     def standard_normal(self, size=None): return self._draw('standard_normal', ('normal', 0, 1), size)
@@ -260,13 +268,13 @@ class NPShim(Forward):
         if _issym(a):
             _hit('np.isnan'); arr = _obj(a)
             return _np.array([(not isinstance(e, (SReal, SBool))) and bool(_np.isnan(e)) for e in arr.reshape(-1)]).reshape(arr.shape)
-        return _np.isnan(a)
+        return _np.isnan(_defloat(a))
     def isinf(self, a):
         if isinstance(a, (SReal, AVec)): return False
         if _issym(a):
             arr = _obj(a)
             return _np.array([(not isinstance(e, (SReal, SBool))) and bool(_np.isinf(e)) for e in arr.reshape(-1)]).reshape(arr.shape)
-        return _np.isinf(a)
+        return _np.isinf(_defloat(a))
     def isneginf(self, a):
         if isinstance(a, (SReal, AVec)): return False
         if _issym(a): return _np.zeros(_np.shape(a), dtype=bool)
@@ -276,7 +284,7 @@ class NPShim(Forward):
         if _issym(a):
             arr = _obj(a)
             return _np.array([isinstance(e, (SReal, SBool)) or bool(_np.isfinite(e)) for e in arr.reshape(-1)]).reshape(arr.shape)
-        return _np.isfinite(a)
+        return _np.isfinite(_defloat(a))
     def isreal(self, a):
         if _issym(a): return True
         return _np.isreal(a)
@@ -289,7 +297,7 @@ class NPShim(Forward):
             A, Bv = _np.broadcast_arrays(_obj(a), _obj(b))
             conj = [T(x) == T(y) for x, y in zip(A.reshape(-1), Bv.reshape(-1))]
             return bool(SBool(z3.And(*conj))) if conj else True
-        return _np.allclose(a, b, *args, **k)
+        return _np.allclose(_defloat(a), _defloat(b), *args, **k)
     def isclose(self, a, b, *args, **k):
         if _issym(a, b):
             _hit('np.isclose(exact)')
@@ -297,12 +305,12 @@ class NPShim(Forward):
                 if _np.ndim(a) == 0 and _np.ndim(b) == 0: return SBool(T(a) == T(b))
             A, Bv = _np.broadcast_arrays(_obj(a), _obj(b))
             return _np.array([SBool(T(x) == T(y)) for x, y in zip(A.reshape(-1), Bv.reshape(-1))], dtype=object).reshape(A.shape)
-        return _np.isclose(a, b, *args, **k)
+        return _np.isclose(_defloat(a), _defloat(b), *args, **k)
     def array_equal(self, a, b, *args, **k):
         if _issym(a, b):
             if _np.shape(a) != _np.shape(b): return False
             return self.allclose(a, b)
-        return _np.array_equal(a, b, *args, **k)
+        return _np.array_equal(_defloat(a), _defloat(b), *args, **k)
     def array_equiv(self, a, b):
         if _issym(a, b): return self.allclose(a, b)
         return _np.array_equiv(a, b)
@@ -310,7 +318,7 @@ class NPShim(Forward):
         if _issym(a):
             _hit('np.count_nonzero')
             return int(sum(1 for e in _obj(a).reshape(-1) if bool(e != 0)))
-        return _np.count_nonzero(a, *args, **k)
+        return _np.count_nonzero(_defloat(a), *args, **k)
     def any(self, a, *args, **k):
         if _issym(a):
             arr = _obj(a).reshape(-1)
